@@ -38,7 +38,9 @@ func checkC19(rep *core.Report) {
 		return
 	}
 	// ---- R19.1 ----
-	an := obl.New(oblConfig(prog))
+	cfg := oblConfig(prog)
+	cfg.StrictLen = func(fn *ssa.Function) bool { return core.PkgRel(fn) == "reader" }
+	an := obl.New(cfg)
 	for _, fn := range methods {
 		if fn.Object() != nil && fn.Object().Exported() {
 			an.AnalyzeRoot(fn, obl.RootOpts{NonNilParams: true})
